@@ -426,15 +426,26 @@ pub fn c05_replay(subject: &dyn Subject, v: &Value) -> (bool, String) {
 // ------------------------------------------------------------------------------------------------
 // C08
 
-/// In-range clause: 1 <= line <= lines+1, 1 <= column <= len(line)+1 (lines split at LF).
-pub fn location_in_range(input: &[u8], line: usize, column: usize) -> Result<(), String> {
-    let lines: Vec<&[u8]> = input.split(|&b| b == b'\n').collect();
-    // split gives a trailing empty piece when the input ends in LF: that is "line count + 1"
-    let n_lines = if input.is_empty() { 0 } else if input.ends_with(b"\n") { lines.len() - 1 } else { lines.len() };
+/// In-range clause: 1 <= line <= lines+1, 1 <= column <= len(line)+1. Lines are split at the LF
+/// offsets in `breaks` (all LFs for text formats).
+pub fn location_in_range(input: &[u8], breaks: &[usize], line: usize, column: usize) -> Result<(), String> {
+    // line k (1-based) spans starts[k-1] .. (breaks[k-1] or end of input)
+    let mut starts = vec![0usize];
+    for &b in breaks {
+        starts.push(b + 1);
+    }
+    // a trailing piece after the last LF that is empty does not count as a line
+    let n_lines = if input.is_empty() { 0 } else if *starts.last().unwrap() >= input.len() { starts.len() - 1 } else { starts.len() };
     if line < 1 || line > n_lines + 1 {
         return Err(format!("line {line} is outside 1..={} (the input has {n_lines} line(s))", n_lines + 1));
     }
-    let len = lines.get(line - 1).map_or(0, |l| l.len());
+    let len = if line <= n_lines {
+        let s = starts[line - 1];
+        let e = breaks.get(line - 1).copied().unwrap_or(input.len());
+        e - s
+    } else {
+        0
+    };
     if column < 1 || column > len + 1 {
         return Err(format!("column {column} is outside 1..={} (line {line} has {len} bytes)", len + 1));
     }
@@ -484,7 +495,7 @@ pub fn c08(subjects: &[Box<dyn Subject>], docs: &[Doc], corruptions: &[(usize, C
                 if let End::Syntax { line, column, .. } = &ex.end {
                     acc.nontrivial += 1;
                     acc.outcome(format!("{}:syntax", family_of(subject)));
-                    if let Err(why) = location_in_range(input, *line, *column) {
+                    if let Err(why) = location_in_range(input, &subject.line_breaks(input), *line, *column) {
                         let key = format!("{}/location/out-of-range", family_of(subject));
                         acc.violation_with(&key, input.len() as u64, || (format!("{} on {:?} [{}]: {}: {why}", subject.name(), show(input), spec.describe(), ex.end.short()), replay_json("C08", subject, input, &spec)));
                     }
@@ -549,7 +560,7 @@ pub fn c08_replay(subject: &dyn Subject, v: &Value) -> (bool, String) {
     let mut bad = false;
     let mut text = format!("{} on {:?} [{}]\n  outcome: {}\n", subject.name(), show(&input), spec.describe(), ex.end.short());
     if let End::Syntax { line, column, .. } = &ex.end {
-        if let Err(why) = location_in_range(&input, *line, *column) {
+        if let Err(why) = location_in_range(&input, &subject.line_breaks(&input), *line, *column) {
             bad = true;
             text.push_str(&format!("  out of range: {why}\n"));
         }
